@@ -105,7 +105,7 @@ AtAwait(p) == \A i \in Items(p) : (IsStream(i) /\ (HasStop(p) => i < NextStop(p)
 Mid(p) == HasStop(p) /\ OpType(NextStop(p))          \* the gather in front of an operation (inside try)
 Kids(p) == {k \in Items(p) : IsStream(k)}
 LiveKids(p) == {k \in Kids(p) : sst[k] = "live"}
-DeadKids(p) == {k \in Kids(p) : sst[k] \in {"failed", "cancelled"}}
+DeadKids(p) == {k \in Kids(p) : sst[k] = "failed"}      \* a cancelled stream has been cancelled by p itself
 PendingFailure(p) == DeadKids(p) # {}
 OpInFlight(p) == \E o \in Items(p) : ost[o] = "flight"
 
@@ -238,11 +238,11 @@ SuccessComplete == ret.st = "ok" => /\ \A o \in Ops : ost[o] = "done"
                                     /\ ~Malformed /\ InFlight = {}
                                     /\ \A o \in Ops : en[o] <= ret.at
 (* one timing per executed operation, in document order whatever the completion order was *)
-DocOrder == LET RECURSIVE Seq(_)
-                Seq(from) == LET rest == {o \in Ops : o >= from}
+DocOrder == LET RECURSIVE OpSeq(_)
+                OpSeq(from) == LET rest == {o \in Ops : o >= from}
                              IN IF rest = {} THEN <<>>
-                                ELSE LET o == CHOOSE x \in rest : \A y \in rest : x <= y IN <<o>> \o Seq(o + 1)
-            IN Seq(1)
+                                ELSE LET o == CHOOSE x \in rest : \A y \in rest : x <= y IN <<o>> \o OpSeq(o + 1)
+            IN OpSeq(1)
 TimingsComplete == ret.st = "ok" => tm[0] = DocOrder
 (* a raising sub-request or a rejected item: the composite raises, at that very instant, that exception *)
 NoSuccessOnFailure == (\E o \in Ops : ost[o] \in {"failed", "aborted"}) \/ (\E s \in Lists : sst[s] \in {"failed", "cancelled"})
@@ -256,12 +256,12 @@ RejectedNeverRuns == \A i \in N : Kind(i) # "op" => ost[i] = "na"
 (* only with ValidateUpFront: nothing at all is sent for a malformed composite *)
 NothingSentIfMalformed == Malformed => \A o \in Ops : ost[o] = "new"
 (* only with CancelTail: once the composite has raised nothing of it is on the wire at any later instant *)
-QuiescentAfterRaise == (ret.st = "raised" /\ now > ret.at) => InFlight = {}
+Late == {o \in Ops : (ost[o] = "flight" /\ now > ret.at) \/ en[o] > ret.at}      \* on the wire after the composite ended
+QuiescentAfterRaise == ret.st = "raised" => Late = {}
 (* what the code as it is guarantees instead: whatever survives the failure sits behind a group of streams
    at the END of a list (the gather outside the try block) *)
 TailGroup(x) == IsStream(x) /\ ~\E k \in Items(Par(x)) : k > x /\ OpType(k)
-OrphansOnlyBehindTail == (ret.st = "raised" /\ now > ret.at) =>
-                            \A o \in InFlight : \E x \in AncSelf(o) : TailGroup(x)
+OrphansOnlyBehindTail == ret.st = "raised" => \A o \in Late : \E x \in AncSelf(o) : TailGroup(x)
 (* after a return nothing runs (success), and a live stream is never left behind a cancelled/failed parent
    other than as such an orphan *)
 NoRunawayAfterSuccess == ret.st = "ok" => \A s \in Lists : sst[s] = "done"
